@@ -115,13 +115,11 @@ Qed.
 
 Local Open Scope Z_scope.
 
-(* markers, the signed flag, header offsets; the marshal buffer holds the longest frame (10 + 255 + 2 + 13), the read buffer the longest UDP datagram (65507 bytes) *)
+(* markers, the signed flag; the marshal buffer holds the longest frame (10 + 255 + 2 + 13), the read buffer the longest UDP datagram (65507 bytes) *)
 Theorem src_frame_layout :
   c_frame_V1MagicByte = 254 /\ c_frame_V2MagicByte = 253 /\ c_frame_V2FlagSigned = 1 /\
   280 <= c_frame_bufferSize /\ 65507 <= c_frame_readBufferSize /\
    c_frame_readBufferSize = a_frame_Reader_Initialize_NewReaderSize /\
-  k_frame_V1Frame_marshalTo = [255; 0; 0; 254; 1; 2; 3; 4; 5; 6; 0; 2] /\
-  k_frame_V2Frame_marshalTo = [0; 253; 1; 2; 3; 4; 5; 6; 7; 10; 0; 2; 6] /\
   d_frame_Writer_Initialize_OutComponentID = 1 /\ d_streamwriter_Writer_Initialize_ComponentID = 1.
 Proof. repeat split; try reflexivity; vm_compute; discriminate. Qed.
 
